@@ -70,6 +70,8 @@ class CallMixin(object):
             return ("mod", base[1] + "." + attr)
         if k == "cursor" and attr == "lastrowid":
             return ("lastrowid", base[1])
+        if k == "dbcur" and attr == "lastrowid" and (base, "#result") in state.heap:
+            return ("lastrowid", state.heap[(base, "#result")][1])
         if k == "nt":
             for (f, v) in base[2]:
                 if f == attr:
@@ -161,6 +163,20 @@ class CallMixin(object):
                 out.append((s, vals))
                 continue
             base, key = vals
+            if base[0] == "reg" and base[1][0] == "obj" and \
+                    (base[1][1], base[2]) in self.registries and \
+                    isinstance(node.ctx, ast.Load) and any(
+                        "KeyError" in h[0] or "LookupError" in h[0] for h in s.handlers):
+                # try: R[k] ... except KeyError: the subscript is the membership test
+                member = ("cmp", "in", plain(key), base)
+                for (s2, b) in self.split(member, s, frame, node):
+                    if b:
+                        out.append((s2, self.get_item(base, key, s2, frame, node)))
+                    else:
+                        self.ev(s2, "raise", frame, node, cls="KeyError", value=None)
+                        out.append((s2, Outcome("raise", cls="KeyError",
+                                                site=self.site(frame, node))))
+                continue
             out.append((s, self.get_item(base, key, s, frame, node)))
         return out
 
